@@ -294,7 +294,7 @@ fn gen_prim(rng: &mut Rng, action: bool, last: bool) -> Value {
             3 => json!({"k": "prim", "prim": "-delete", "kind": "action", "okind": "none"}),
             4 | 5 => json!({"k": "prim", "prim": "-printf", "kind": "action", "okind": "printf",
                         "arg": b(pick_bytes(rng, &[b"%p\\n", b"%f %s %m %y\\0", b"%-10p|%5d\\n", b"%%x", b"%h/%f %l", b"%P %H %U %G %n %i %Y"],
-                                            &[b"%", b"%5", b"%-", b"x%", b"\\", b"%z", b"\\q", b"%A", b"%-5", b"a\\"]))}),
+                                            &[b"%", b"%5", b"%-", b"x%", b"\\", b"%z", b"\\q", b"%A", b"%-5", b"a\\", b"%TQ", b"%AE", b"%CO", b"%Ti", b"%TN\\n", b"%Ak%TJ", b"%T@ %TL"]))}),
             6 => json!({"k": "prim", "prim": "-fprint", "kind": "action", "okind": "fprint"}),
             _ => {
                 let shapes: [&[&str]; 12] = [&["cmd", "{}", ";"], &["cmd", "{}", "+"], &["cmd", "w", "{}", ";"], &["cmd", ";"], &["cmd", "x{}", ";"],
